@@ -92,7 +92,9 @@ class Triangle(abc.Set):
         return hash(tuple(self._cells))
 
     def __eq__(self, other) -> bool:
-        return all([cell1 == cell2 for cell1, cell2 in zip(self.cells, other.cells)])
+        return len(self.cells) == len(other.cells) and all(
+            [cell1 == cell2 for cell1, cell2 in zip(self.cells, other.cells)]
+        )
 
     def __len__(self) -> int:
         return len(self._cells)
